@@ -165,7 +165,7 @@ def main(tier, seed, replay=None):
     warnings.simplefilter("ignore")
     import pyshacl
     rep = F.Report(PROP, tier, seed)
-    ob = F.coq_build(["Props/C16.v"], translators=["t3", "t4", "t5"])
+    ob = F.coq_build(["Props/C16.v"], translators=["t3", "t4", "t5", "t6"])
     rng = F.rng_for(seed, PROP)
     big = tier == "thorough"
     known = {k.get("id") for k in F.load_known_findings(PROP)}
@@ -335,7 +335,15 @@ def main(tier, seed, replay=None):
         dd["what"] = "Tie A: cli.main() handles this outcome differently from the handler table generated from its source"
         rep.violation(dd)
     if (not ob.ok or errors) and not rep.violations:
-        rep.violation({"obligation": ob.broken or errors, "detail": ob.log[-1500:]}, no_input=True)
+        info = {"obligation": ob.broken or errors, "detail": ob.log[-1500:]}
+        if any("RaisesProofs" in b for b in ob.broken):
+            # name the raise statements / helper calls that are out of order (Gen/T6 and Mini/Raises still compile)
+            info["raise_statements_out_of_order"] = F.coq_show(
+                "c16census", "From Coq Require Import List String Bool NArith.\nFrom Verif Require Import Gen.T3 Gen.T6 Mini.Cli Mini.Raises.",
+                "(filter (fun s => negb (site_ok s)) raise_sites, filter (fun c => negb (call_ok c)) helper_calls)")
+            info["what"] = ("a raise statement on the validate() path raises a class outside the documented families (and is not handled in place, not a guarded helper "
+                            "signal, not a listed internal guard) - theorem C16_raise_census / C16_helper_calls_guarded no longer checks; no input reaching it was found by the enumeration")
+        rep.violation(info, no_input=True)
     cov = F.proof_coverage(ob, [
         "translator/t3.py (fail-closed extraction of the except clauses, their exit_code assignments, the finally block, the final sys.exit and the early exits of cli.main(); class table of errors.py)",
         "coq/Mini/Cli.v: Python's except-clause dispatch modelled as 'first clause whose class occurs in the raised class's MRO'; an uncaught exception ends the interpreter with status 1",
